@@ -250,10 +250,25 @@ class DanglingDoccomment_process:
 
 
 @spec
-def count_modules(docs: "list[ref]", k: int) -> "list[ref]":
+def modules_of(docs: "list[ref]", k: int) -> "list[ref]":
     """the module entries among the first k entries, in order"""
-    return [] if k <= 0 else ((count_modules(docs, k - 1) + [docs[k - 1]])
-                              if isinstance(docs[k - 1], ModuleDocumentation) else count_modules(docs, k - 1))
+    return [] if k <= 0 else ((modules_of(docs, k - 1) + [docs[k - 1]])
+                              if isinstance(docs[k - 1], ModuleDocumentation) else modules_of(docs, k - 1))
+
+
+@spec
+def has_module(docs: "list[ref]") -> bool:
+    return len(docs) > 0 and isinstance(docs[0], ModuleDocumentation)
+
+
+@lemma
+def modules_tail(docs: "list[ref]", k: int):
+    """with no module entry after the first position, the module entries are exactly [docs[0]] or nothing"""
+    props("C12", "C02", "C07")
+    requires(k >= 0 and k <= len(docs) and forall(1, k, lambda i: not isinstance(docs[i], ModuleDocumentation)))
+    ensures(len(modules_of(docs, k)) == (1 if k >= 1 and isinstance(docs[0], ModuleDocumentation) else 0) and
+            (not (k >= 1 and isinstance(docs[0], ModuleDocumentation)) or same(modules_of(docs, k)[0], docs[0])))
+    induction(k)
 
 
 @contract("cminx.documenter:Documenter.process_docs")
@@ -262,11 +277,10 @@ class Documenter_process_docs:
     in list order, as one top-level directive of its kind; the title follows a named @module doccomment"""
     props = ["C02", "C07", "C12", "C17"]
     types = {"docs": "list[ref:DocumentationType]", "module_docs": "list[ref:ModuleDocumentation]"}
-    raises = {"ValueError": lambda self: False}
 
     def requires(self, docs):
         return (len(header_chars(self.writer.settings)) >= 1 and len(self.writer.document) >= 1 and
-                typeof(self.writer, "RSTWriter") and
+                typeof(self.writer, "RSTWriter") and heading_ok(self.writer) and
                 forall(0, len(docs), lambda i: entry_ok(docs[i])) and
                 forall(1, len(docs), lambda i: not isinstance(docs[i], ModuleDocumentation)) and
                 not same(docs, self.writer.document))
@@ -275,14 +289,14 @@ class Documenter_process_docs:
         """exactly one module entry, first: the file's own (T-ANTLR: a module doccomment can only open the file)
         or a generated one named after the module"""
         return (len(docs) >= 1 and typeof(docs[0], "ModuleDocumentation") and
-                ((len(old.docs) > 0 and isinstance(old.docs[0], ModuleDocumentation) and
-                  unchanged(docs, old.docs)) or
+                (not has_module(old.docs) or unchanged(docs, old.docs)) and
+                (has_module(old.docs) or
                  (len(docs) == len(old.docs) + 1 and fresh(docs[0]) and docs[0].name == self.module_name and
                   docs[0].doc == "" and forall(0, len(old.docs), lambda i: same(docs[i + 1], old.docs[i])))))
 
     def ensures_names(self, docs):
         """an empty @module name falls back to the path-derived module name; a given name is also the title"""
-        return (not (len(old.docs) > 0 and isinstance(old.docs[0], ModuleDocumentation)) or
+        return (not has_module(old.docs) or
                 ((len(old.docs[0].name) != 0 or (docs[0].name == self.module_name and
                                                  self.writer.title == old.self.writer.title)) and
                  (len(old.docs[0].name) == 0 or (docs[0].name == old.docs[0].name and
@@ -296,16 +310,33 @@ class Documenter_process_docs:
                        lambda i: same(self.writer.document[i], old.self.writer.document[i])) and
                 heading_ok(self.writer))
     modifies = ["items(docs)", "items(self.writer.document)", "self.writer.__title",
-                "every('DocumentationType.name')", "every_list('LStr')"]
+                "docs[0].name if len(docs) > 0 and isinstance(docs[0], ModuleDocumentation) else None"]
     loops = {
-        0: Loop(inv=lambda docs, _out, _k: _out == count_modules(docs, _k), modifies=["items(_out)"],
+        0: Loop(inv=lambda docs, _out, _k: _out == modules_of(docs, _k), modifies=["items(_out)"],
                 elem="ref:ModuleDocumentation"),
-        1: Loop(inv=lambda self, docs, module_docs, _k: True, modifies=[]),
+        1: Loop(inv=lambda self, docs, module_docs, _k:
+                modules_tail(old.docs, len(old.docs)) and
+                _k <= 1 and len(module_docs) <= 1 and
+                same(self.writer, entry.self.writer) and same(self.writer.document, entry.self.writer.document) and
+                len(self.writer.document) == len(entry.self.writer.document) and heading_ok(self.writer) and
+                forall(1, len(self.writer.document),
+                       lambda i: same(self.writer.document[i], entry.self.writer.document[i])) and
+                (_k != 0 or (self.writer.title == entry.self.writer.title and
+                             (len(module_docs) == 0 or module_docs[0].name == entry.module_docs[0].name))) and
+                (_k != 1 or ((len(entry.module_docs[0].name) != 0 or
+                              (module_docs[0].name == self.module_name and
+                               self.writer.title == entry.self.writer.title)) and
+                             (len(entry.module_docs[0].name) == 0 or
+                              (module_docs[0].name == entry.module_docs[0].name and
+                               self.writer.title == entry.module_docs[0].name)))),
+                modifies=["module_docs[0].name if len(module_docs) > 0 else None", "self.writer.__title",
+                          "items(self.writer.document)"]),
         2: Loop(inv=lambda self, docs, _k:
                 len(self.writer.document) == len(entry.self.writer.document) + _k and
+                same(self.writer.document, entry.self.writer.document) and
                 forall(0, len(entry.self.writer.document),
                        lambda i: same(self.writer.document[i], entry.self.writer.document[i])) and
                 forall(0, _k, lambda j: top_dir(self.writer, self.writer.document[len(entry.self.writer.document) + j],
                                                 docs[j])),
-                modifies=["items(self.writer.document)", "every_list('LStr')"]),
+                modifies=["items(self.writer.document)"]),
     }
